@@ -12,6 +12,7 @@ import Simfile.Model.Notes
 import Simfile.Model.Group
 import Simfile.Model.Engine
 import Simfile.Model.Load
+import Simfile.Model.Msd
 import Simfile.Spec.Timeline
 import Simfile.Spec.Notes
 import Simfile.Spec.Group
@@ -297,6 +298,7 @@ def handle (j : Json) : R Json := do
   | "obj.sm_chart_from_str" => pure (jExcept jObjErr jSMChart (smChartFromStr (← getStr (← field j "s"))))
   | "obj.sm_chart_from_msd" => pure (jExcept jObjErr jSMChart (smChartFromMsd (← getArr getStr (← field j "values"))))
   | "obj.notes_last" => pure (jSSC (← getSSC (← field j "sf")).notesLast)
+  | "msd.safe" => pure (jBool (safeParams (← getArr getParam (← field j "params")) false))
   | "load.any" =>
     let name ← getOptStr (fieldD j "name" Json.null)
     let force := fieldD j "force" Json.null
